@@ -16,7 +16,8 @@ MODEL_NAME = "c14"
 TRUSTED_BASE = [
     "Coq 8.16.1 kernel (coqc); vm_compute only in the example; no native_compute",
     "extraction (ExtrOcamlBasic only; Z/positive stay Coq datatypes) + ocaml/driver_body.ml + OCaml 4.13.1",
-    "hand-written model coq/theories/Model/LdmSub.v (on top of Model/LdmFilter.v), tied to the code by differential "
+    "hand-written model coq/theories/Model/LdmSub.v (on top of Model/LdmFilter.v) and, for consumers that act from inside "
+    "their callbacks, the small-step machine coq/theories/Model/LdmSubReact.v, tied to the code by differential "
     "execution of operation sequences (this harness)",
     "Python harness harness/c14.py, harness/c13.py (specification of a request), harness/ldm_common.py, harness/stack.py",
 ]
@@ -25,6 +26,15 @@ ASSUMPTIONS = [
     "Factory-built LDM (Dictionary back-end, reactive service) by execution on the same operation sequences, not by proof",
     "every subscription is made with its own callback object; time.monotonic of the reactive service is the virtual clock "
     "as an exact rational",
+    "consumers that act on their notifications (seed C14-11): from inside the j-th invocation of its callback a consumer "
+    "performs one scripted operation (add, attend, subscribe, unsubscribe, register, deregister) on the same LDM, in the "
+    "thread that delivers the notification (re-entrant, sequential; concurrent attendances are C16); the clock does not "
+    "move inside an operation; an exception raised by such a nested operation is caught by the consumer (recorded, "
+    "reported as exception_escaped) and callbacks themselves do not raise",
+    "an attendance nested in another one is an attendance of its own: it owes every subscription that is due when it begins "
+    "a notification unless that subscription is notified (by an attendance nested deeper) or cancelled before it ends; an "
+    "addition made from inside a callback may attend (the code does) or leave the data to the attendance under way - the "
+    "oracle checks the notifications it makes but demands none (the model comparison pins what the code does)",
     "stored objects stay valid and lie outside the maintenance zone during a sequence (expiry is C12); a data provider is registered",
     "when no object matches, no notification is expected (also for multiplicity 0); the first notification of a subscription is "
     "required once the interval has passed since the subscription was made and tolerated earlier",
@@ -42,13 +52,19 @@ EXPLANATION = ("theorems over all operation sequences: each attendance invokes e
                "(registered consumer, matching data = C13 query, multiplicity, interval at one-second resolution) with exactly "
                "that data and in subscription order; no callback after unsubscription or deregistration (even after a "
                "re-registration); other subscriptions untouched; invalid requests refused with the code of the first failing "
-               "check; correspondence: responses, callback invocations with their arguments, the subscription list with its "
+               "check; for histories in which consumers act from inside their callbacks (small-step machine, attendances "
+               "nest): consecutive notifications of a subscription are at least its interval apart, the notification is "
+               "recorded before the callback runs, a cancelled subscription that no attendance under way has ahead is never "
+               "invoked again (full clause refuted: KF-C14-2), and with passive consumers the machine is the step model; "
+               "correspondence: responses, callback invocations with their arguments, the subscription list with its "
                "last-notified times, the consumer registry and the store compared after every operation")
 
 CFG = {"lat": 0, "lon": 0, "alt": 0, "rd": 4}
 KEYS = Interner()
 EXTRA = {"smc": 1, "smo": 2, "smic": 3, "ac": 0, "radius": 10, "rd": 1, "td": 0}
 NT_MAX = 4398046511103
+# the operations a consumer may also perform from inside a notification callback (seed C14-11)
+NESTABLE = ("reg_cons", "dereg_cons", "subscribe", "unsubscribe", "add", "attend")
 
 
 def message(o):
@@ -111,6 +127,10 @@ def expand_ops(case):
     return out
 
 
+def has_react(case):
+    return any(o.get("react") for o in case["ops"])
+
+
 def model_applies(case):
     """the model describes the reactive service and has no update operation"""
     return case.get("service", "Reactive") == "Reactive" and not any(o["op"] == "update" for o in expand_ops(case))
@@ -167,12 +187,24 @@ class _FakeThreading:
 # implementation
 
 class _Cb:
-    def __init__(self, sink):
+    """the callback of one subscription. A consumer may act on a notification: `react` lists what it does from inside
+    its j-th invocation (an operation of the property's alphabet, or None); `fire` (given by exec_impl) records the
+    invocation in the event tree of the running operation and performs that operation - while the LDM is still
+    delivering"""
+
+    def __init__(self, sink, react=None, fire=None):
         self.num = None
         self.sink = sink
+        self.react = list(react or [])
+        self.fire = fire
+        self.n = 0
 
     def __call__(self, resp):
         self.sink.append((self, resp))
+        j = self.n
+        self.n += 1
+        if self.fire is not None:
+            self.fire(self, resp, j)
 
 
 def exec_impl(case):
@@ -197,39 +229,91 @@ def exec_impl(case):
     for aid in (1, 2, 16):
         lut.if3.register_data_provider(RegisterDataProviderReq(aid, (AccessPermission(aid),), TimeValidity(0)))
     sink = []
-    st = {"next_cb": 0, "nadd": 0}
+    st = {"next_cb": 0, "nadd": 0, "nested": False}
     real_ids = {}        # index of the subscribe op -> identifier returned
     key_of_real = {}     # identifier returned -> interned key of the request
     add_ids = {}         # k-th add -> identifier
     tok_pos = {}         # token -> k
     trace = []
+    evstack = [[]]       # event lists of the running operation and of the operations nested in it (by callbacks)
+
+    def tok_of(d):
+        return d.get("dataObject", {}).get("header", {}).get("stationId")
+
+    def raw_state():
+        """subscriptions and store as they are now; callback numbers and store positions are resolved when the
+        top-level operation has ended (an addition learns its position only when it returns)"""
+        subs = [(hash(s_.subscription_request), s_.callback, svc.last_checked_subscriptions_time.get(s_)) for s_ in svc.subscriptions]
+        return subs, [tok_of(d) for _, d in lut.items()]
+
+    def res_subs(raw):
+        return [[key_of_real.get(rid, -1), cb.num if isinstance(cb, _Cb) and cb.num is not None else -1,
+                 last.timestamp_its if last is not None else -1] for rid, cb, last in raw]
+
+    def res_events(evs):
+        out = []
+        for e in evs:
+            if e[0] == "call":
+                out.append(["call", e[1].num if e[1].num is not None else -1, [tok_pos.get(x, -1) for x in e[2]], e[3], e[4]])
+            else:
+                n = e[1]
+                out.append(["op", {"op": n["op"], "out": n["out"], "subs": res_subs(n["raw"][0]), "conss": n["conss"],
+                                   "store": [tok_pos.get(x, -1) for x in n["raw"][1]], "err": n["err"],
+                                   "events": res_events(n["events"])}])
+        return out
 
     def snap(out, err=None, **extra):
         calls = []
         for cb, resp in sink:
-            pos = [tok_pos.get(d.get("dataObject", {}).get("header", {}).get("stationId"), -1) for d in resp.data_objects]
+            pos = [tok_pos.get(tok_of(d), -1) for d in resp.data_objects]
             calls.append([cb.num if cb.num is not None else -1, pos, int(resp.application_id), int(resp.result)])
         del sink[:]
-        subs = []
-        for s_ in svc.subscriptions:
-            rid = hash(s_.subscription_request)
-            last = svc.last_checked_subscriptions_time.get(s_)
-            subs.append([key_of_real.get(rid, -1), s_.callback.num if isinstance(s_.callback, _Cb) and s_.callback.num is not None else -1,
-                         last.timestamp_its if last is not None else -1])
-        store = [tok_pos.get(d.get("dataObject", {}).get("header", {}).get("stationId"), -1) for _, d in lut.items()]
-        e = {"out": out, "calls": calls, "subs": subs, "conss": lut.consumers(), "store": store, "err": err}
+        raw = raw_state()
+        e = {"out": out, "calls": calls, "subs": res_subs(raw[0]), "conss": lut.consumers(),
+             "store": [tok_pos.get(x, -1) for x in raw[1]], "err": err}
+        if st["nested"]:
+            # a callback acted during this operation: the invocations and the nested operations in their order
+            e["events"] = res_events(evstack[0])
+        st["nested"] = False
+        del evstack[1:]
+        evstack[0] = []
         e.update(extra)
         trace.append(e)
         return e
 
+    def fire(cb, resp, j):
+        evstack[-1].append(["call", cb, [tok_of(d) for d in resp.data_objects], int(resp.application_id), int(resp.result)])
+        o = cb.react[j] if j < len(cb.react) else None
+        if o is None or len(evstack) > 40:
+            return
+        # the consumer acts on the notification, from inside its callback
+        st["nested"] = True
+        frame = []
+        evstack.append(frame)
+        err = None
+        try:
+            out = perform(o, None)
+        except Exception as e:
+            out, err = [-99], type(e).__name__ + ": " + str(e)[:100]
+        finally:
+            while evstack[-1] is not frame:
+                evstack.pop()
+            evstack.pop()
+        evstack[-1].append(["op", {"op": o, "out": out, "raw": raw_state(), "conss": lut.consumers(), "err": err, "events": frame}])
+
     def do_add(o):
+        nadd = st["nadd"]            # the position is taken when the addition begins (additions nest)
+        st["nadd"] += 1
         req = AddDataProviderReq(2 if o["typ"] == 2 else 1 if o["typ"] == 1 else 16, TimestampIts(its_ms(VCLOCK.ms)),
                                  make_location(413800000, 21100000, 1000, EXTRA), message(o), TimeValidity(o.get("val", 100000)))
-        r = lut.if3.add_provider_data(req)
-        nadd = st["nadd"]
+        try:
+            r = lut.if3.add_provider_data(req)
+        except Exception:
+            if st["nadd"] == nadd + 1:
+                st["nadd"] = nadd
+            raise
         add_ids[nadd] = r.data_object_id
         tok_pos[o["tok"]] = nadd
-        st["nadd"] += 1
         return [nadd if r.data_object_id is not None and r.data_object_id >= 0 else -1]
 
     def do_subscribe(o, oi, via_factory=None):
@@ -247,7 +331,7 @@ def exec_impl(case):
             orders = tuple(OrderTupleValue(x["name"], OrderingDirection(1 if x["desc"] else 0)) for x in o["orders"])
         if o["order_bad"]:
             orders = (orders or ()) + (OrderTupleValue("stationId", 2),)
-        cb = _Cb(sink)
+        cb = _Cb(sink, o.get("react"), fire)
         if via_factory is None:
             req = SubscribeDataobjectsReq(application_id=o["aid"], data_object_type=tuple(o["types"]), priority=o["prio"],
                                           filter=flt, notify_time=None if o["nt"] is None else TimestampIts(o["nt"]),
@@ -263,9 +347,32 @@ def exec_impl(case):
         if code == 0:
             cb.num = st["next_cb"]
             st["next_cb"] += 1
-            real_ids[oi] = rid
+            if oi is not None:
+                real_ids[oi] = rid
             key = key_of_real.setdefault(rid, KEYS(hash_identity(o)))
         return [code, key]
+
+    def perform(o, oi):
+        """the operations a consumer / provider can also perform from inside a callback; returns the response"""
+        k = o["op"]
+        if k == "reg_cons":
+            r = lut.if4.register_data_consumer(RegisterDataConsumerReq(o["aid"], tuple(o["perms"]), GeometricArea(None, None, None)))
+            return [int(r.result)]
+        if k == "dereg_cons":
+            r = lut.if4.deregister_data_consumer(DeregisterDataConsumerReq(o["aid"]))
+            return [int(r.ack)]
+        if k == "subscribe":
+            return do_subscribe(o, oi)
+        if k == "unsubscribe":
+            rid = real_ids.get(o["sub"], 0) if o["sub"] >= 0 else 123456789
+            r = lut.if4.unsubscribe_data_consumer(UnsubscribeDataConsumerReq(o["aid"], rid))
+            return [int(r.result)]
+        if k == "add":
+            return do_add(o)
+        if k == "attend":
+            svc.attend_subscriptions()
+            return []
+        raise ValueError(k)
 
     try:
         for oi, o in enumerate(case["ops"]):
@@ -273,15 +380,12 @@ def exec_impl(case):
             n_before = len(trace)
             n_want = len(expand_ops({"ops": [o]}))
             del sink[:]
+            del evstack[1:]
+            evstack[0] = []
+            st["nested"] = False
             try:
-                if k == "reg_cons":
-                    r = lut.if4.register_data_consumer(RegisterDataConsumerReq(o["aid"], tuple(o["perms"]), GeometricArea(None, None, None)))
-                    snap([int(r.result)])
-                elif k == "dereg_cons":
-                    r = lut.if4.deregister_data_consumer(DeregisterDataConsumerReq(o["aid"]))
-                    snap([int(r.ack)])
-                elif k == "subscribe":
-                    snap(do_subscribe(o, oi))
+                if k in NESTABLE:
+                    snap(perform(o, oi))
                 elif k == "factory_sub":
                     from flexstack.facilities.local_dynamic_map.factory import LDMFactory
                     fac = LDMFactory()
@@ -297,12 +401,6 @@ def exec_impl(case):
                     e["out"] = [0] if 2 in lut.consumers() else [2]
                     e["conss"] = lut.consumers()
                     snap(res)
-                elif k == "unsubscribe":
-                    rid = real_ids.get(o["sub"], 0) if o["sub"] >= 0 else 123456789
-                    r = lut.if4.unsubscribe_data_consumer(UnsubscribeDataConsumerReq(o["aid"], rid))
-                    snap([int(r.result)])
-                elif k == "add":
-                    snap(do_add(o))
                 elif k == "update":
                     r = lut.if3.update_provider_data(UpdateDataProviderReq(
                         2, add_ids.get(o["k"], -7), TimestampIts(its_ms(VCLOCK.ms)),
@@ -315,9 +413,6 @@ def exec_impl(case):
                     snap([int(r.result)])
                 elif k == "advance":
                     VCLOCK.advance(o["ms"])
-                    snap([])
-                elif k == "attend":
-                    svc.attend_subscriptions()
                     snap([])
                 elif k == "periodic":
                     # the loop of LDMServiceThreads, run here for `ticks` rounds; the wait of each round advances the
@@ -368,45 +463,89 @@ def enc_opt(v):
     return [0, 0] if v is None else [1, v]
 
 
+def enc_flat_op(o, now, sub_keys):
+    """one flat operation as the integers LdmSub.decode reads"""
+    k = o["op"]
+    a = []
+    if k == "reg_cons":
+        a += [1, o["aid"], len(o["perms"])] + list(o["perms"])
+    elif k == "dereg_cons":
+        a += [2, o["aid"]]
+    elif k == "subscribe":
+        key = KEYS(hash_identity(o))
+        if "src" in o:
+            sub_keys[o["src"]] = key
+        a += [3, o["aid"], key, len(o["types"])] + list(o["types"]) + enc_opt(o["prio"])
+        orders = o["orders"] or []
+        a += [0 if o["order_bad"] else 1, len(orders)]
+        for x in orders:
+            a += c13.enc_str(x["name"]) + [1 if x["desc"] else 0]
+        a += [0 if o["filter_bad"] else 1]
+        f = o["filter"]
+        if f is None or o["filter_bad"]:
+            a += [0]
+        elif f["s2"] is None:
+            a += [1] + c13.enc_stmt(f["s1"])
+        else:
+            a += [2] + c13.enc_stmt(f["s1"]) + [0 if f["lop"] == "and" else 1] + c13.enc_stmt(f["s2"])
+        a += enc_opt(o["nt"]) + enc_opt(o["mult"])
+    elif k == "unsubscribe":
+        a += [4, o["aid"], sub_keys.get(o["sub"], -1) if o["sub"] >= 0 else -1]
+    elif k == "add":
+        a += [5, o["typ"]] + c13.enc_jv(record_of(o, now))
+    elif k == "del":
+        a += [6, o["k"]]
+    elif k == "advance":
+        a += [7, o["ms"]]
+    elif k == "attend":
+        a += [8]
+    return a
+
+
 def encode_case(case):
     a = [its_ms(case["t0_utc_ms"])]
     now = its_ms(case["t0_utc_ms"])
     sub_keys = {}
     for o in expand_ops(case):
-        k = o["op"]
-        if k == "reg_cons":
-            a += [1, o["aid"], len(o["perms"])] + list(o["perms"])
-        elif k == "dereg_cons":
-            a += [2, o["aid"]]
-        elif k == "subscribe":
-            key = KEYS(hash_identity(o))
-            sub_keys[o["src"]] = key
-            a += [3, o["aid"], key, len(o["types"])] + list(o["types"]) + enc_opt(o["prio"])
-            orders = o["orders"] or []
-            a += [0 if o["order_bad"] else 1, len(orders)]
-            for x in orders:
-                a += c13.enc_str(x["name"]) + [1 if x["desc"] else 0]
-            a += [0 if o["filter_bad"] else 1]
-            f = o["filter"]
-            if f is None or o["filter_bad"]:
-                a += [0]
-            elif f["s2"] is None:
-                a += [1] + c13.enc_stmt(f["s1"])
-            else:
-                a += [2] + c13.enc_stmt(f["s1"]) + [0 if f["lop"] == "and" else 1] + c13.enc_stmt(f["s2"])
-            a += enc_opt(o["nt"]) + enc_opt(o["mult"])
-        elif k == "unsubscribe":
-            a += [4, o["aid"], sub_keys.get(o["sub"], -1) if o["sub"] >= 0 else -1]
-        elif k == "add":
-            a += [5, o["typ"]] + c13.enc_jv(record_of(o, now))
-        elif k == "del":
-            a += [6, o["k"]]
-        elif k == "advance":
-            a += [7, o["ms"]]
+        a += enc_flat_op(o, now, sub_keys)
+        if o["op"] == "advance":
             now += o["ms"]
-        elif k == "attend":
-            a += [8]
     return a
+
+
+def react_fuel(case):
+    """small steps the machine of Model/LdmSubReact.v may need at most: every operation (of the history or of a script)
+    costs two steps plus, when it attends, one per subscription"""
+    flat = expand_ops(case)
+    nops = len(flat) + sum(len(o.get("react") or []) for o in flat)
+    nsubs = sum(1 for o in flat if o["op"] == "subscribe") + sum(1 for o in flat for r in (o.get("react") or []) if r and r["op"] == "subscribe")
+    return (nops + 2) * (nsubs + 4) + 10
+
+
+def encode_case_react(case):
+    """cmd 3 of the model: [t0; fuel; number of scripts; (index of the subscribe operation, entries)...; operations...];
+    a script entry is 0 (nothing) | 1 len <operation> | 2 aid index (unsubscription of the identifier that operation
+    `index` of the history returned). The time stamp inside a record added by a callback is not part of what is compared."""
+    flat = expand_ops(case)
+    t0 = its_ms(case["t0_utc_ms"])
+    tbl = []
+    n = 0
+    for fi, o in enumerate(flat):
+        if o["op"] == "subscribe" and o.get("react"):
+            n += 1
+            ent = []
+            for r in o["react"]:
+                if r is None:
+                    ent += [0]
+                elif r["op"] == "unsubscribe":
+                    # indices of the history are those of case["ops"]; the model counts flat operations
+                    tgt = [j for j, x in enumerate(flat) if x["src"] == r["sub"] and x["op"] == "subscribe"]
+                    ent += [2, r["aid"], tgt[0] if tgt else -1]
+                else:
+                    e = enc_flat_op(r, t0, {})
+                    ent += [1, len(e)] + e
+            tbl += [fi, len(o["react"])] + ent
+    return [t0, react_fuel(case), n] + tbl + encode_case(case)[1:]
 
 
 def decode_model(flat, nops):
@@ -427,40 +566,194 @@ def decode_model(flat, nops):
     return trace
 
 
+def decode_model_react(flat, case):
+    """events of the machine -> one trace entry per flat operation, in the shape exec_impl gives (with "events")"""
+    ops = expand_ops(case)
+    rd = Reader(flat)
+    invoked = {}         # callback number -> invocations so far
+    script = {}          # callback number -> its consumer's script
+    nsub = [0]
+
+    def dump():
+        subs = [rd.many(3) for _ in range(rd.one())]
+        conss = sorted(rd.many(rd.one()))
+        store = rd.many(rd.one())
+        return subs, conss, store
+
+    def one_op(o, top):
+        """reads the events of one operation up to its end"""
+        events = []
+        calls = []
+        while True:
+            tag = rd.one()
+            if tag == 10:
+                cb = rd.one()
+                pos = rd.many(rd.one())
+                events.append(["call", cb, pos])
+                calls.append([cb, pos])
+                j = invoked.get(cb, 0)
+                invoked[cb] = j + 1
+                sc = script.get(cb, [])
+                r = sc[j] if j < len(sc) else None
+                if r is not None:
+                    if rd.one() != 11:
+                        raise ValueError("the model does not begin the operation of the script")
+                    node, sub_calls = one_op(r, False)
+                    events.append(["op", node])
+                    calls += sub_calls
+            elif tag == 12:
+                out = rd.many(rd.one())
+                subs, conss, store = dump()
+                if o["op"] == "subscribe" and out and out[0] == 0:
+                    if top and o.get("react"):
+                        script[nsub[0]] = o["react"]
+                    nsub[0] += 1
+                e = {"op": o, "out": out, "calls": calls, "subs": subs, "conss": conss, "store": store, "err": None, "events": events}
+                return e, calls
+            elif tag == 13:
+                raise ValueError("the model ran out of fuel")
+            else:
+                raise ValueError(f"unexpected event tag {tag}")
+    trace = []
+    for o in ops:
+        e, _ = one_op(o, True)
+        if not any(x[0] == "op" for x in e["events"]):
+            del e["events"]
+        del e["op"]
+        trace.append(e)
+    if not rd.done():
+        raise ValueError("model output has trailing data")
+    return trace
+
+
+def strip_events(evs):
+    """what is compared between model and implementation: invocations (callback, positions) and nested operations
+    (response, subscriptions, registry, store) in their order"""
+    out = []
+    for e in evs:
+        if e[0] == "call":
+            out.append(["call", e[1], list(e[2])])
+        else:
+            n = e[1]
+            out.append(["op", n["op"]["op"], list(n["out"]), [list(x) for x in n["subs"]], list(n["conss"]), list(n["store"]),
+                        strip_events(n["events"])])
+    return out
+
+
 # --------------------------------------------------------------------------------------------
 # property oracle (from the property text; uses the request specification of C13)
 
 def oracle(case, trace):
+    """the property, clause by clause, on the observed history. An entry of the trace may carry "events": the callback
+    invocations of the operation in their order, interleaved with the operations the notified consumers performed from
+    inside their callbacks (["op", entry], recursively) - those are operations of the history like any other, they
+    happen while an attendance is under way. Without "events" the invocations are t["calls"] and nothing is nested."""
     fails = []
-    now = its_ms(case["t0_utc_ms"])
+    S = {"now": its_ms(case["t0_utc_ms"]), "next_cb": 0, "nadd": 0, "ver": 0, "cancelled": 0}
+    # times at which the reactive service may have attended last (one value, unless an addition made from inside a
+    # callback left it open whether the service attended once more inside the attendance under way)
+    S["last_attend"] = [S["now"]]
     reg = set()
     live = []            # dicts: cb, aid, q (types/filter/orders), nt, mult, since (second of subscription), last (second of last notification)
-    dead_cbs = {}        # cb -> "unsubscribed" | "deregistered"
-    next_cb = 0
+    dead_cbs = {}        # cb -> ("unsubscribed" | "deregistered", serial number of the cancellation)
     store = []           # (k, record)
-    nadd = 0
-    last_attend = now
     sub_cb = {}          # index of subscribe op (in case["ops"]) -> cb
     sub_op = {}          # index of subscribe op (in case["ops"]) -> the flat subscribe operation
+    op_of_cb = {}        # cb -> the subscribe operation that made it (also of subscriptions made from a callback)
     reactive = case.get("service", "Reactive") == "Reactive"
     ops = expand_ops(case)
+    cache = {"ver": -1}
 
     def fail(cls, i, detail, expected=None, observed=None):
         if len(fails) < 20:
             fails.append((cls, i, detail, expected, observed))
 
-    for j, (o, t) in enumerate(zip(ops, trace)):
-        i = o["src"]         # failures are located by the index of the operation in case["ops"]
+    def want_of(u):
+        """store positions the subscription has to be notified with now (None: the order is not applicable)"""
+        if cache["ver"] != S["ver"]:
+            cache.clear()
+            cache["ver"] = S["ver"]
+        if u["cb"] not in cache:
+            recs = [r for _, r in store]
+            pos = [p for p, _ in store]
+            cache[u["cb"]] = [pos[j] for j in c13.spec_query(recs, u["q"])] if c13.order_kinds_ok(recs, u["q"]) else None
+        return cache[u["cb"]]
+
+    def status(u):
+        """(want, enough objects, reference second, must be notified by an attendance now, may be notified)"""
+        want = want_of(u)
+        if want is None:
+            return None
+        trunc = S["now"] // 1000 * 1000
+        mult_ok = u["mult"] is None or len(want) >= u["mult"]
+        ref = u["last"] if u["last"] is not None else u["since"]
+        interval_ok = u["nt"] is None or trunc - ref >= u["nt"]
+        must = bool(want) and mult_ok and interval_ok and u["aid"] in reg
+        may = bool(want) and mult_ok and u["last"] is None and u["aid"] in reg
+        return want, mult_ok, ref, must, may
+
+    def on_call(c, att, i):
+        cb = c[0]
+        if cb in dead_cbs:
+            how, serial = dead_cbs[cb]
+            if att is not None and serial > att["cancelled0"]:
+                # cancelled by an operation that a notified consumer performed while this very attendance was under way
+                fail("callback_of_subscription_cancelled_during_attendance", i,
+                     f"the callback of a subscription that was {how} from inside a notification callback was still invoked by the "
+                     "attendance that was under way", "no call", c[:2])
+            else:
+                fail("callback_after_" + ("unsubscribe" if how == "unsubscribed" else "deregister"), i,
+                     f"the callback of a subscription that was {how} was invoked again", "no call", c[:2])
+            return
+        u = next((u for u in live if u["cb"] == cb), None)
+        if u is None:
+            fail("callback_of_unknown_subscription", i, "a callback that belongs to no live subscription was invoked", None, c[:2])
+            return
+        if att is None:
+            return
+        att["own"][cb] = att["own"].get(cb, 0) + 1
+        if att["own"][cb] == 2:
+            fail("notified_twice", i, "one attendance invoked a subscription's callback more than once", 1, 2)
+        stt = status(u)
+        if stt is None:
+            return
+        want, mult_ok, ref, must, may = stt
+        trunc = S["now"] // 1000 * 1000
+        got = c[1]
+        if len(c) > 2 and (c[2] != u["aid"] or c[3] != 0):
+            fail("notification_header", i, "notification does not carry the consumer's application id and result succeed",
+                 [u["aid"], 0], c[2:])
+        if not want:
+            if got:
+                fail("notified_wrong_data", i, "notification carries objects although none matches", want, got)
+        elif sorted(got) != sorted(want):
+            fail("notified_wrong_data", i, "notification does not carry exactly the stored objects of the subscribed types that "
+                 "match the filter (store positions)", want, got)
+        elif got != want:
+            fail("notified_wrong_order", i, "notification carries the matching objects in another order than requested", want, got)
+        if want and not mult_ok:
+            fail("notified_below_multiplicity", i, "notified although fewer than `multiplicity` objects match",
+                 u["mult"], len(want))
+        elif want and not (must or may):
+            fail("notified_too_early", i, "notified before the notification interval has passed since the previous notification",
+                 {"interval_ms": u["nt"], "previous": ref, "now": trunc}, "callback")
+        u["last"] = trunc
+
+    def process(o, t, i, depth):
         k = o["op"]
         out = t["out"]
+        now = S["now"]
         if t.get("err"):
             fail("exception_escaped", i, f"{k} raised {t['err']}")
         if t.get("stopped") and not o.get("periodic"):
-            continue             # the rest of a composite operation that raised (reported above)
+            return               # the rest of a composite operation that raised (reported above)
         if t.get("stopped"):
             fail("periodic_attendance_stopped", i, "the periodic attendance loop of the service ended although it was not asked to "
                  "stop (or never reached its wait): from here on nothing is notified", "loop keeps attending", "loop ended")
-            continue
+            return
+        events = t.get("events")
+        if events is None:
+            events = [["call"] + list(c) for c in t["calls"]]
         attended = False
         must_attend = False
         if k == "advance":
@@ -468,7 +761,7 @@ def oracle(case, trace):
             if o.get("periodic") and ms > 1000:
                 fail("periodic_attendance_interval", i, "the periodic attendance waits longer than the LDM's one-second clock "
                      "resolution between two attendances", "<= 1000 ms", ms)
-            now += ms
+            S["now"] = now + ms
         elif k == "reg_cons":
             if out == [0]:
                 reg.add(o["aid"])
@@ -479,7 +772,8 @@ def oracle(case, trace):
                 reg.discard(o["aid"])
                 for u in [u for u in live if u["aid"] == o["aid"]]:
                     live.remove(u)
-                    dead_cbs[u["cb"]] = "deregistered"
+                    S["cancelled"] += 1
+                    dead_cbs[u["cb"]] = ("deregistered", S["cancelled"])
         elif k == "subscribe":
             bad = []
             if o["aid"] not in reg:
@@ -507,12 +801,14 @@ def oracle(case, trace):
                 if code != 0:
                     fail("valid_subscription_refused", i, "a valid subscription request of a registered consumer was refused", 0, out)
             if code == 0:
-                u = {"cb": next_cb, "aid": o["aid"], "q": {"types": o["types"], "filter": o["filter"], "orders": o["orders"]},
+                u = {"cb": S["next_cb"], "aid": o["aid"], "q": {"types": o["types"], "filter": o["filter"], "orders": o["orders"]},
                      "nt": o["nt"], "mult": o["mult"], "since": now // 1000 * 1000, "last": None, "op": i}
                 live.append(u)
-                sub_cb[i] = next_cb
-                sub_op[i] = o
-                next_cb += 1
+                op_of_cb[u["cb"]] = o
+                if depth == 0:
+                    sub_cb[i] = u["cb"]
+                    sub_op[i] = o
+                S["next_cb"] += 1
         elif k == "unsubscribe":
             # the identifier handed out for subscribe operation o["sub"]; identical requests share one identifier,
             # so it names every live subscription made with that very request
@@ -520,15 +816,16 @@ def oracle(case, trace):
             collide = []
             if o["sub"] in sub_cb:
                 ident = req_identity(sub_op[o["sub"]])
-                same = [u for u in live if req_identity(sub_op[u["op"]]) == ident]
+                same = [u for u in live if req_identity(op_of_cb[u["cb"]]) == ident]
                 hid = hash_identity(sub_op[o["sub"]])
-                collide = [u for u in live if u not in same and hash_identity(sub_op[u["op"]]) == hid]
+                collide = [u for u in live if u not in same and hash_identity(op_of_cb[u["cb"]]) == hid]
             if out == [0]:
                 if not same and not collide:
                     fail("unsubscribe_of_nothing", i, "unsubscription of an identifier that names no live subscription succeeded")
                 for u in same:
                     live.remove(u)
-                    dead_cbs[u["cb"]] = "unsubscribed"
+                    S["cancelled"] += 1
+                    dead_cbs[u["cb"]] = ("unsubscribed", S["cancelled"])
                 gone = [u for u in collide if u["cb"] not in [x[1] for x in t["subs"]]]
                 if gone:
                     # a DIFFERENT request (reference value -1 where this one has -2, or the reverse) was cancelled with it
@@ -537,78 +834,66 @@ def oracle(case, trace):
                          [u["cb"] for u in same + gone])
                     for u in gone:
                         live.remove(u)
-                        dead_cbs[u["cb"]] = "unsubscribed"
+                        S["cancelled"] += 1
+                        dead_cbs[u["cb"]] = ("unsubscribed", S["cancelled"])
             elif same and o["aid"] in reg:
                 fail("unsubscribe_refused", i, "unsubscription of a live subscription by a registered consumer failed", [0], out)
         elif k == "add":
-            store.append((nadd, record_of(o, now)))
-            nadd += 1
-            attended = bool(t["calls"])
-            if reactive and now - last_attend >= 500:
+            store.append((S["nadd"], record_of(o, now)))
+            S["nadd"] += 1
+            S["ver"] += 1
+            attended = any(e[0] == "call" for e in events)
+            if reactive and depth == 0 and all(now - x >= 500 for x in S["last_attend"]):
                 attended = must_attend = True
         elif k == "update":
             if out == [0]:
                 if not any(p == o["k"] for p, _ in store):
                     fail("update_of_missing_object", i, "update of an object that is not stored succeeded")
                 store[:] = [(p, dict(r, dataObject=message(o)) if p == o["k"] else r) for p, r in store]
+                S["ver"] += 1
         elif k == "del":
             if out == [0]:
                 store[:] = [(p, r) for p, r in store if p != o["k"]]
+                S["ver"] += 1
         elif k == "attend":
             attended = must_attend = True
-        # ---- callbacks ----------------------------------------------------------------
-        called = {}
-        for c in t["calls"]:
-            called.setdefault(c[0], []).append(c)
-        if t["calls"] and not attended:
-            fail("unexpected_callback", i, f"callbacks were invoked during {k}", [], t["calls"][:3])
-        for cb, cs in called.items():
-            if cb in dead_cbs:
-                fail("callback_after_" + ("unsubscribe" if dead_cbs[cb] == "unsubscribed" else "deregister"), i,
-                     f"the callback of a subscription that was {dead_cbs[cb]} was invoked again", "no call", cs[0][:2])
-            elif not any(u["cb"] == cb for u in live):
-                fail("callback_of_unknown_subscription", i, "a callback that belongs to no live subscription was invoked", None, cs[0][:2])
+        # ---- callbacks, and what the notified consumers did from inside them, in their order ----
+        att = None
         if attended:
-            recs = [r for _, r in store]
-            pos = [p for p, _ in store]
-            trunc = now // 1000 * 1000
+            # what this attendance owes every subscription that is live when it begins
+            att = {"own": {}, "due0": {}, "cancelled0": S["cancelled"]}
+            if must_attend:
+                for u in live:
+                    stt = status(u)
+                    if stt is not None and stt[3]:
+                        att["due0"][u["cb"]] = (stt[0], stt[2])
+        elif any(e[0] == "call" for e in events):
+            fail("unexpected_callback", i, f"callbacks were invoked during {k}", [], [e[1:] for e in events if e[0] == "call"][:3])
+        for e in events:
+            if e[0] == "call":
+                on_call(e[1:], att, i)
+            else:
+                process(e[1]["op"], e[1], i, depth + 1)
+        if attended and must_attend:
+            # matching data is notified by the first attendance after the interval: a subscription that was due when the
+            # attendance began, was not notified by it and is still due when it has ended (a notification by an attendance
+            # nested in this one counts; a subscription cancelled meanwhile is owed nothing)
+            trunc = S["now"] // 1000 * 1000
             for u in live:
-                want = [pos[j] for j in c13.spec_query(recs, u["q"])] if c13.order_kinds_ok(recs, u["q"]) else None
-                cs = called.get(u["cb"], [])
-                if want is None:
+                if u["cb"] in att["own"] or u["cb"] not in att["due0"]:
                     continue
-                mult_ok = u["mult"] is None or len(want) >= u["mult"]
-                ref = u["last"] if u["last"] is not None else u["since"]
-                interval_ok = u["nt"] is None or trunc - ref >= u["nt"]
-                must = bool(want) and mult_ok and interval_ok and u["aid"] in reg
-                may = bool(want) and mult_ok and u["last"] is None and u["aid"] in reg
-                if len(cs) > 1:
-                    fail("notified_twice", i, "one attendance invoked a subscription's callback more than once", 1, len(cs))
-                if cs:
-                    got = cs[0][1]
-                    if len(cs[0]) > 2 and (cs[0][2] != u["aid"] or cs[0][3] != 0):
-                        fail("notification_header", i, "notification does not carry the consumer's application id and result succeed",
-                             [u["aid"], 0], cs[0][2:])
-                    if not want:
-                        if got:
-                            fail("notified_wrong_data", i, "notification carries objects although none matches", want, got)
-                    elif sorted(got) != sorted(want):
-                        fail("notified_wrong_data", i, "notification does not carry exactly the stored objects of the subscribed types that "
-                             "match the filter (store positions)", want, got)
-                    elif got != want:
-                        fail("notified_wrong_order", i, "notification carries the matching objects in another order than requested", want, got)
-                    if want and not mult_ok:
-                        fail("notified_below_multiplicity", i, "notified although fewer than `multiplicity` objects match",
-                             u["mult"], len(want))
-                    elif want and not (must or may):
-                        fail("notified_too_early", i, "notified before the notification interval has passed since the previous notification",
-                             {"interval_ms": u["nt"], "previous": ref, "now": trunc}, "callback")
-                    u["last"] = trunc
-                elif must and must_attend:
+                stt = status(u)
+                if stt is not None and stt[3]:
+                    want0, ref0 = att["due0"][u["cb"]]
                     fail("notification_missed", i, "matching data was not notified by the first attendance after the interval",
-                         {"data": want, "interval_ms": u["nt"], "previous": ref, "now": trunc}, "no callback")
-        if must_attend and k == "add":
-            last_attend = now
+                         {"data": want0, "interval_ms": u["nt"], "previous": ref0, "now": trunc}, "no callback")
+        if k == "add" and reactive:
+            if must_attend or (attended and depth > 0):
+                S["last_attend"] = [S["now"]]
+            elif depth > 0 and any(now - x >= 500 for x in S["last_attend"]):
+                # an addition made from inside a callback, while an attendance is under way: the property does not say
+                # whether the service attends once more inside that attendance (the code does) or leaves the data to it
+                S["last_attend"] = sorted(set(S["last_attend"] + [S["now"]]))
         # ---- live subscriptions and registry, as far as observable -----------------------
         if [s[1] for s in t["subs"]] != [u["cb"] for u in live]:
             fail("subscription_set_wrong", i, f"the live subscriptions after {k} are not the accepted, not yet cancelled ones",
@@ -617,7 +902,11 @@ def oracle(case, trace):
             live[:] = [u for u in live if u["cb"] in cbs]
         if t["conss"] != sorted(reg):
             fail("consumer_registry_wrong", i, f"registered consumers after {k}", sorted(reg), t["conss"])
-            reg = set(t["conss"])
+            reg.clear()
+            reg.update(t["conss"])
+
+    for o, t in zip(ops, trace):
+        process(o, t, o["src"], 0)       # failures are located by the index of the operation in case["ops"]
     return fails
 
 
@@ -674,6 +963,7 @@ def gen_case(rng, n, style="plain"):
     intervals and clock advances up to a day, updates of stored objects, LDMFactory.subscribe_to_ldm, negative values
     and reference values (incl. the pair -1 / -2, whose requests share a subscription identifier)"""
     audit = style == "audit"
+    react = style == "react"
     t0 = T0_UTC_MS + rng.choice((0, 1, 500, 999, rng.randrange(1000)))
     ops = []
     g_reg = set()
@@ -681,7 +971,7 @@ def gen_case(rng, n, style="plain"):
     g_types = {}      # k-th add -> type
     nadd = 0
     tok = 100
-    service = "Thread" if audit and rng.random() < 0.35 else "Reactive"
+    service = "Thread" if (audit and rng.random() < 0.35) or (react and rng.random() < 0.15) else "Reactive"
     long_times = audit and rng.random() < 0.5
     nts, advs = (NTS_W, ADV_W) if long_times else (NTS, ADV)
     speeds = (0, 1, 2, 3, 10, -1, -2) if audit else (0, 1, 2, 3, 10)
@@ -696,6 +986,40 @@ def gen_case(rng, n, style="plain"):
         g_types[nadd] = o["typ"]
         nadd += 1
         return o
+
+    def a_subscribe(aid):
+        return {"op": "subscribe", "aid": aid,
+                "types": rng.choice(([2], [2], [1], [16], [1, 2], [1, 2, 16], [2, 16], list(range(1, 22)))),
+                "prio": rng.choice((None, None, 0, 5, 255)),
+                "orders": rng.choice((None, None, [], [{"name": "stationId", "desc": True}], [{"name": "speed", "desc": False}],
+                                      [{"name": "speed", "desc": True}, {"name": "stationId", "desc": False}],
+                                      [{"name": "level", "desc": False}, {"name": "generationDeltaTime", "desc": True}])),
+                "order_bad": False, "filter": gen_filter(rng, audit), "filter_bad": False,
+                "nt": rng.choice(nts), "mult": rng.choice(MULTS)}
+
+    def a_reaction(own_index, aid):
+        """what a consumer does from inside one invocation of its callback: mostly it publishes data derived from the
+        notification (on the reactive service that addition attends the subscriptions while the notification is still
+        being delivered), or has the LDM attend, ends a subscription (its own or another one), subscribes to something
+        else, deregisters, registers - or nothing"""
+        y = rng.random()
+        if y < 0.15:
+            return None
+        if y < 0.65:
+            return an_add()
+        if y < 0.77:
+            return {"op": "attend"}
+        if y < 0.87:
+            # its own subscription, an earlier one, or one that is made later in the history (if the operation at that index
+            # is a subscription that has succeeded by then)
+            sub = own_index if rng.random() < 0.4 or not g_subs else rng.choice(g_subs + [own_index + rng.choice((1, 1, 2, 3))])
+            return {"op": "unsubscribe", "aid": aid if rng.random() < 0.8 else rng.choice(AIDS), "sub": sub}
+        if y < 0.93:
+            return a_subscribe(aid if rng.random() < 0.7 else rng.choice(AIDS))
+        if y < 0.97:
+            return {"op": "dereg_cons", "aid": aid if rng.random() < 0.6 else rng.choice(AIDS)}
+        a = rng.choice(AIDS)
+        return {"op": "reg_cons", "aid": a, "perms": [a]}
     for _ in range(n):
         x = rng.random()
         if audit and len(ops) >= 3:
@@ -765,6 +1089,10 @@ def gen_case(rng, n, style="plain"):
                         o["mult"] = rng.choice((-1, 256, 1000))
             elif g_subs and rng.random() < 0.08 and any(ops[i]["op"] == "subscribe" for i in g_subs):
                 o = dict(ops[rng.choice([i for i in g_subs if ops[i]["op"] == "subscribe"])])       # an identical request (shares the identifier)
+                o.pop("react", None)
+            if react and rng.random() < 0.6:
+                # a consumer that acts on its notifications (seed C14-11): what it does at its 1st, 2nd, ... invocation
+                o["react"] = [a_reaction(len(ops), o["aid"]) for _ in range(rng.choice((1, 1, 2, 3, 4, 6)))]
             ops.append(o)
             if valid and o["aid"] in g_reg:
                 g_subs.append(len(ops) - 1)
@@ -782,6 +1110,15 @@ def gen_case(rng, n, style="plain"):
             ops.append({"op": "advance", "ms": rng.choice(advs)})
         else:
             ops.append({"op": "attend"})
+    if react:
+        # some of the unsubscriptions made from a callback aim at a subscription that comes later in the subscription order
+        # (the attendance under way still has it ahead)
+        subs_at = [i for i, o in enumerate(ops) if o["op"] == "subscribe"]
+        for i in subs_at:
+            for r in ops[i].get("react") or []:
+                later = [j for j in subs_at if j > i]
+                if r and r["op"] == "unsubscribe" and later and rng.random() < 0.5:
+                    r["sub"] = rng.choice(later)
     case = {"t0_utc_ms": t0, "ops": ops}
     if service != "Reactive":
         case["service"] = service
@@ -912,6 +1249,77 @@ def boundary_cases_audit(tier="quick"):
     return cases
 
 
+def boundary_cases_react():
+    """consumers that act on their notifications (seed C14-11): from inside its callback a consumer adds data (a consumer
+    that is also a provider; on the reactive service the addition attends the subscriptions while the notification is still
+    being delivered), has the LDM attend, ends a subscription, subscribes, deregisters. Every notification interval x what
+    the consumer does x its place in the subscription order; the other consumer is passive or acts as well"""
+    t0 = T0_UTC_MS
+    cases = []
+    reg = [{"op": "reg_cons", "aid": 2, "perms": [2]}, {"op": "reg_cons", "aid": 16, "perms": [16]}]
+    tok = [500]
+
+    def sub(aid=2, nt=1000, mult=1, types=(2,), flt=None, orders=None, **kw):
+        o = {"op": "subscribe", "aid": aid, "types": list(types), "prio": None, "orders": orders, "order_bad": False,
+             "filter": flt, "filter_bad": False, "nt": nt, "mult": mult}
+        o.update(kw)
+        return o
+
+    def add(typ=2, speed=1, gdt=0, level=None):
+        tok[0] += 1
+        return {"op": "add", "typ": typ, "tok": tok[0], "gdt": gdt, "speed": speed, "level": level}
+    att = {"op": "attend"}
+
+    def adv(ms):
+        return {"op": "advance", "ms": ms}
+
+    def history():
+        return [add(), adv(1000), add(), adv(1000), add(typ=1), adv(500), add(), adv(500), add(typ=1), att, adv(2000), att,
+                adv(999), add(), adv(1), add(), adv(3000), add(typ=1), att]
+    # a. the acting consumer A (CAMs) and a second consumer B (CAMs and DENMs, every second)
+    for nt in (None, 0, 1, 1000, 2000, 3000):
+        for what in ("add_own_type", "add_other_type", "attend", "mixed"):
+            for a_first in (True, False):
+                for b_acts in (False, True):
+                    if what == "add_own_type":
+                        script = [add() for _ in range(5)]
+                    elif what == "add_other_type":
+                        script = [add(typ=1) for _ in range(5)]
+                    elif what == "attend":
+                        script = [att] * 5
+                    else:
+                        script = [add(), None, att, add(typ=1), None, add()]
+                    sa = sub(nt=nt, react=script)
+                    sb = sub(aid=16, nt=1000, types=(2, 1), orders=[{"name": "stationId", "desc": True}])
+                    if b_acts:
+                        sb["react"] = [None, add(typ=16), att, add()]
+                    cases.append({"t0_utc_ms": t0 + (0 if a_first else 400), "ops": reg + ([sa, sb] if a_first else [sb, sa]) + history()})
+    # b. on the threaded service an addition does not attend; the periodic attendance is represented by explicit attendances
+    for nt in (0, 2000):
+        cases.append({"t0_utc_ms": t0, "service": "Thread",
+                      "ops": reg + [sub(nt=nt, react=[add(), att, add(typ=1), att]), sub(aid=16, nt=1000, types=(2, 1))] + history()})
+    # c. a consumer that ends a subscription from inside a notification: its own, an earlier one, a later one (interval > 0:
+    #    the later one is not due in this attendance), deregisters itself / the other consumer, subscribes again, registers
+    for nt in (0, 1000):
+        base = reg + [sub(nt=nt), sub(aid=16, nt=nt, types=(2, 1))]          # operations 2 and 3
+        for script in ([{"op": "unsubscribe", "aid": 2, "sub": 4}], [{"op": "unsubscribe", "aid": 2, "sub": 2}],
+                       [{"op": "dereg_cons", "aid": 2}], [{"op": "dereg_cons", "aid": 16}],
+                       [sub(nt=0, types=(1, 2)), None, sub(aid=16, nt=1000)],
+                       [{"op": "dereg_cons", "aid": 2}, {"op": "reg_cons", "aid": 2, "perms": [2]}],
+                       [{"op": "reg_cons", "aid": 1, "perms": [1]}, sub(aid=1, nt=0)]):
+            cases.append({"t0_utc_ms": t0, "ops": base + [sub(nt=nt, react=script), sub(aid=16, nt=nt)] + history()})
+    #    ... and a later one that is due in the same attendance (no interval: known finding KF-C14-2); the other consumer's
+    #    registration ended and renewed by two consumers notified before it
+    for nt in (None, 0, 1000, 2000):
+        for script in ([{"op": "unsubscribe", "aid": 2, "sub": 5}], [{"op": "unsubscribe", "aid": 16, "sub": 5}]):
+            cases.append({"t0_utc_ms": t0, "ops": reg + [sub(nt=1000), sub(aid=16, nt=1000, types=(2, 1)), sub(nt=1000, react=script),
+                                                          sub(aid=16, nt=nt)] + history()})
+        cases.append({"t0_utc_ms": t0, "ops": reg + [sub(nt=0, react=[None, {"op": "dereg_cons", "aid": 16}]),
+                                                      sub(nt=0, types=(2, 1), react=[None, {"op": "reg_cons", "aid": 16, "perms": [16]}]),
+                                                      sub(aid=16, nt=nt)] + history()})
+    return cases
+
+
 # --------------------------------------------------------------------------------------------
 
 def known_classes(ctx):
@@ -927,7 +1335,8 @@ def check_cases(ctx, cases, label):
     flats = None
     if ctx.model.available:
         with_model = [ci for ci, c in enumerate(cases) if model_applies(c)]
-        flats = dict(zip(with_model, ctx.model.batch((1, encode_case(cases[ci])) for ci in with_model)))
+        flats = dict(zip(with_model, ctx.model.batch(
+            (3, encode_case_react(cases[ci])) if has_react(cases[ci]) else (1, encode_case(cases[ci])) for ci in with_model)))
     for ci, (case, tr) in enumerate(zip(cases, traces)):
         ctx.count(len(tr), label)
         for o in case["ops"]:
@@ -959,7 +1368,7 @@ def check_cases(ctx, cases, label):
             continue
         flat_ops = expand_ops(case)
         try:
-            mtr = decode_model(flats[ci], len(flat_ops))
+            mtr = decode_model_react(flats[ci], case) if has_react(case) else decode_model(flats[ci], len(flat_ops))
         except Exception as e:
             ctx.mismatch("model output decodes", {"case": case}, str(e), None)
             continue
@@ -971,6 +1380,10 @@ def check_cases(ctx, cases, label):
         for i, (a, b) in enumerate(zip(mtr, tr)):
             bb = dict(b, calls=[c[:2] for c in b["calls"]])
             diff = [f for f in ("out", "calls", "subs", "conss", "store") if a[f] != bb[f]]
+            if not diff and ("events" in a or "events" in b) and strip_events(a.get("events", [])) != strip_events(b.get("events", [])):
+                a = dict(a, events=strip_events(a.get("events", [])))
+                bb = dict(bb, events=strip_events(b.get("events", [])))
+                diff = ["events"]
             if diff:
                 f = diff[0]
                 ctx.mismatch(f"LDM {f} after each operation = LdmSub.step", {"case": case, "op_index": flat_ops[i]["src"], "op": flat_ops[i]},
@@ -992,6 +1405,18 @@ def _shrink(case, i, cls):
         cand = ops[:j] + [blank] + ops[j + 1:]
         if cls in impl_failure_classes(dict(case, ops=cand)):
             ops = cand
+    # what the consumers do from inside their callbacks: drop every reaction the failure does not need
+    for j in range(len(ops)):
+        for r in range(len(ops[j].get("react") or []) - 1, -1, -1):
+            if r >= len(ops[j]["react"]) or ops[j]["react"][r] is None:
+                continue
+            script = list(ops[j]["react"])
+            script[r] = None
+            while script and script[-1] is None:
+                script.pop()
+            cand = ops[:j] + [dict(ops[j], react=script)] + ops[j + 1:]
+            if cls in impl_failure_classes(dict(case, ops=cand)):
+                ops = cand
     return ops
 
 
@@ -1002,7 +1427,10 @@ def run(ctx):
                 "'audit': the threaded service (Thread / Event replaced, its periodic loop run round by round on the virtual clock with "
                 "additions while it waits), LDMFactory.subscribe_to_ldm, updates of stored objects, notification intervals and clock "
                 "advances up to a day, multiplicity 255 with 253..256 matching objects, negative values, requests that differ only in a "
-                "reference value -1 / -2) on a "
+                "reference value -1 / -2; style 'react': consumers that act from inside their notification callbacks - per invocation "
+                "one of add / attend / unsubscribe (own, earlier, later subscription) / subscribe / deregister / register, so that "
+                "attendances nest and the subscription list changes while an attendance is under way; every interval x action x "
+                "place in the subscription order as boundary cases) on a "
                 "Factory-built LDM (Dictionary back-end, reactive service) and on the extracted model; responses, callback invocations with "
                 "arguments, subscription list with last-notified times, consumer registry and store compared after every operation; "
                 "evaluations = operations executed; non-trivial = an operation during which callbacks were invoked")
@@ -1014,6 +1442,7 @@ def run(ctx):
         check_cases(ctx, [json.load(open(f))], "corpus")
     check_cases(ctx, boundary_cases(), "boundary")
     check_cases(ctx, boundary_cases_audit(ctx.tier), "boundary_audit")
+    check_cases(ctx, boundary_cases_react(), "boundary_react")
     rng = ctx.rng
     plan = [(240, (10, 60)), (180, (60, 150)), (60, (150, 300))] if ctx.tier == "quick" else [(3000, (10, 60)), (2000, (60, 150)), (600, (150, 300))]
     for count, (lo, hi) in plan:
@@ -1023,6 +1452,10 @@ def run(ctx):
     for count, (lo, hi) in plan:
         for start in range(0, count, 40):
             check_cases(ctx, [gen_case(rng, rng.randrange(lo, hi + 1), "audit") for _ in range(min(40, count - start))], f"seq_audit_{lo}_{hi}")
+    plan = [(80, (10, 60)), (30, (60, 150))] if ctx.tier == "quick" else [(1500, (10, 80)), (500, (80, 300))]
+    for count, (lo, hi) in plan:
+        for start in range(0, count, 40):
+            check_cases(ctx, [gen_case(rng, rng.randrange(lo, hi + 1), "react") for _ in range(min(40, count - start))], f"seq_react_{lo}_{hi}")
     ctx.exhaustive = False
 
 
